@@ -986,6 +986,12 @@ fn cmd_seq(a: &Args) -> i32 {
                 wl_seq::run_program::<Option<Tp<1>>, FillFastSlots>(pseed, l, ledger),
                 wl_seq::run_program::<Option<Tp<1>>, std::sync::RwLock<()>>(pseed, l, ledger),
             ]
+        } else if val == "rc" {
+            [
+                wl_seq::run_program::<tp::RcOpt, DefaultStrategy>(pseed, l, false),
+                wl_seq::run_program::<tp::RcOpt, FillFastSlots>(pseed, l, false),
+                wl_seq::run_program::<tp::RcOpt, std::sync::RwLock<()>>(pseed, l, false),
+            ]
         } else {
             [
                 wl_seq::run_program::<Option<std::sync::Arc<Payload>>, DefaultStrategy>(pseed, l, false),
